@@ -63,8 +63,13 @@ SPECS = {
     ),
     "C04": dict(pre_lake=_regen, 
         groups=["params", "project"],
-        only_oracles=["tauri_key", "nopanic", "c04_key_set"],
-        excluded_classes=['unsupportedType', 'undefinedNamedType', 'undocumentedItemShape', 'duplicateTypeNames', 'duplicateCommandNames', 'K18a_mappedAndDefined', 'K01a_reservedOrIllegalFnName'],
+        only_oracles=["tauri_key", "nopanic", "c04_key_set", "c04_declared_keys"],
+        # which key the object carries does not depend on whether the parameter's *type* is one the tool documents: only
+        # these classes excuse a wrong key set (the text-level reader of `c04_declared_keys` cannot split the members of a
+        # declaration whose types are the unbalanced fragments of K05bcd: those cases are out of its reach, not findings)
+        oracle_known={"c04_key_set": ["K04d_foreignChannelPath", "duplicateCommandNames", "K01a_reservedOrIllegalFnName", "undocumentedItemShape"],
+                      "c04_declared_keys": ["K04d_foreignChannelPath", "duplicateCommandNames", "K01a_reservedOrIllegalFnName", "undocumentedItemShape", "K05_commaUnsafe", "K01c_nonIdentifierKey"]},
+        excluded_classes=['unsupportedType', 'undefinedNamedType', 'undocumentedItemShape', 'duplicateTypeNames', 'duplicateCommandNames', 'K18a_mappedAndDefined', 'K01a_reservedOrIllegalFnName', 'K05_commaUnsafe', 'K01c_nonIdentifierKey'],
         theorems="Typegen.Theorems.C04",
         trusted_base=[LEAN_TB, HARNESS_TB,
                       "spec: H.heckLowerCamel transcribes heck 0.5 to_lower_camel_case on [a-z0-9_]* (compared per case with the real heck crate); Tauri's macro crate is not in the registry",
@@ -173,7 +178,7 @@ SPECS = {
         assumptions=["reachability spec: identifiers of the type trees (error arm of Result excluded), closed under field types of token-aware serde-derived named-field / unit structs and enums"],
         rule="random projects of 1..5 files in nested directories (120 quick / 1500 thorough, each in both modes, with 5 configuration variants): commands with value / injected (12 spellings) / channel (3 spellings) parameters, serde structs / enums with attributes, validators, events at every documented placement and receiver form, helper functions, impl blocks and inline modules with command-looking functions, decoys under target/ and .git/, unparsable and empty files; a *safe* stream (2/3) stays inside the property's input domain, an *adversarial* stream (1/3) aims at the known exclusion classes; non-trivial = project with at least one command; distinct = hash of (IR, configuration)", exhaustive={"quick": False, "thorough": False},
         partial=["C07_declared_iff: declared = reachable ∩ discovered serde types, both halves proved over the generation model (worklist closure complete with the fuel used); the *analysis'* lazy discovery is proved to be a fixed point too (C07_discovery_closed: every harvested name with an extractable definition is discovered); what remains oracle-only is that harvesting a type string yields its identifiers (proved for well-formed comma-safe strings, L.H1; K07b is its failure class) and the substring derive test (K07c)"]),
-    "C09": dict(groups=["project"], only_oracles=["c09_defined_before_use"], excluded_classes=['unsupportedType', 'undefinedNamedType', 'undocumentedItemShape', 'duplicateTypeNames', 'duplicateCommandNames', 'K18a_mappedAndDefined', 'K01a_reservedOrIllegalFnName'], theorems="Typegen.Theorems.C09",
+    "C09": dict(groups=["project"], only_oracles=["c09_defined_before_use"], excluded_classes=['unsupportedType', 'undefinedNamedType', 'duplicateTypeNames', 'duplicateCommandNames', 'K18a_mappedAndDefined', 'K01a_reservedOrIllegalFnName'], theorems="Typegen.Theorems.C09",
         trusted_base=[LEAN_TB, HARNESS_TB,
                       "project-level tie: the harness renders a project IR to Rust source files, runs the real CommandAnalyzer + generators on them and hands the IR (annotated with the token text proc_macro2 prints for every attribute and the generic tree of every type) to the Lean model; compared: the whole analysis (commands, parameters, channels, events, discovered types, dependency sets) and the text of all four generated files modulo whitespace and the header comment",
                       "modelled, not verified: syn (the IR is what syn hands to the analysers), walkdir, tera (templates transcribed by hand, validated by the text comparison), proc_macro2 Display"],
